@@ -44,6 +44,8 @@ POSITIONS = [
     ('g-nonlocal', 'G', 'nonlocal f_outer\nf_outer={L}\nobs(f_outer)'),
     ('c-attr', 'C', 'attr={L}'),
     ('c-slots', 'C', '__slots__=({L},)'),
+    # the value of an annotated assignment (the annotation-removing transform rebuilds these statements before literals are counted)
+    ('m-annassign-value', 'M', 'm_ann:str={L}\nobs(m_ann)'), ('f-annassign-value', 'F', 'f_ann:str={L}\nobs(f_ann)'), ('c-annassign-value', 'C', 'c_ann:str={L}'),
     ('c-slots-annotated', 'C', '__slots__:tuple=({L},)'), ('c-slots-in-if', 'C', 'if obs:\n __slots__=({L},)'),
     ('c-slots-in-try', 'C', 'try:\n __slots__=({L},)\nfinally:\n pass'),
     ('c-doc-after', 'C', "'class doc'\nattr2={L}"),
